@@ -33,6 +33,8 @@ Definition dec_op (l : list Z) : option op * list Z :=
   | 7 :: rest => (Some ODeviceDelete, rest)
   | 8 :: p :: rest => let '(al, r) := decode_seq dec_talloc rest in (Some (OPodUpdate p al), r)
   | 9 :: p :: rest => (Some (OPodTerminated p), rest)
+  | 10 :: p :: a :: b :: c :: d :: e :: f :: g :: rest =>
+      let '(vs, r) := take_list rest in (Some (OPreemptFilter p (mkRaw a b c d e f g) vs), r)
   | _ => (None, [])
   end.
 Fixpoint dec_ops (n : nat) (l : list Z) : list op :=
